@@ -238,3 +238,73 @@ Theorem C09_cmp_range addr ids pos a b :
   (cmp_node_pos_id ids addr pos a b = true -> (a < length pos)%nat /\ (b < length pos)%nat).
 Proof. exact (conj (cmp_node_pos_addr_range addr pos a b) (cmp_node_pos_id_range ids addr pos a b)). Qed.
 Print Assumptions C09_cmp_range.
+
+(* ================= static_no_throw_on_dag round (Vpsc/StaticDag.v, Rect/PipelineStatic.v).
+   The premise of C09_removeoverlaps_no_overlap_static is that Solver::solve() = satisfy(); refine() returns on the
+   last pass's acyclic constraint set.  PROVED now (C01_static_no_throw_on_dag): Solver::satisfy returns there - no
+   UnsatisfiedConstraint, fuel suffices - with every constraint satisfied EXACTLY, provided the DFS order of
+   Blocks::totalOrder is a repetition-free topological order of the set (dfs_order_ok: a boolean evaluated from the
+   model's total_order only).  So the premise shrinks to two smaller ones, and the theorem stays PARTIAL in exactly these:
+     (i)  dfs_order_ok on the last pass's set - i.e. "DFS from the sources of an acyclic graph yields every node once,
+          in topological order, within recursion depth n" (not proved here; StaticInvB.is_dag is evaluated on every
+          DAG instance of checks/c01.py);
+     (ii) Solver::refine returns from the state satisfy produced (all slacks >= 0): refine's split / mergeLeft /
+          mergeRight rounds and its closing scan are modelled (Vpsc/StaticModel.v, compared with the compiled code on
+          every run) but no no-throw theorem is proved for them. *)
+From Adapt Require Vpsc.StaticDag.
+
+(* Solver::satisfy on the constraint set of a pass: returns, every constraint exactly satisfied *)
+Theorem C09_static_satisfy_returns d w cs :
+  length w = length d -> Forall (fun x => 0 < x) w ->
+  Forall (fun c => (cl c < length d)%nat /\ (cr c < length d)%nat) cs ->
+  dfs_order_ok d w cs ->
+  exists s1, StaticModel.static_satisfy (StaticModel.static_init (mkvars d w) (mkcons cs)) = VpscModel.Ok s1 /\
+             forall c, (c < length cs)%nat -> 0 <= VpscModel.slack_val (StaticModel.base s1) c.
+Proof. exact (static_satisfy_returns d w cs). Qed.
+Print Assumptions C09_static_satisfy_returns.
+
+Theorem C09_removeoverlaps_no_overlap_static_refine_partial mklt xB yB rs fixed third r :
+  (forall pos, strict (mklt pos)) -> (forall pos, total_on (mklt pos) (length pos)) ->
+  (forall pos a b, mklt pos a b = true -> (a < length pos)%nat /\ (b < length pos)%nat) ->
+  0 <= xB -> 0 <= yB ->
+  good_rects rs -> (Z.of_nat (length rs) <= 10000000)%Z ->
+  removeoverlaps mklt static_solve_fn xB yB rs fixed third = Some r ->
+  (forall rsl csl d, last_pass mklt xB yB third rsl csl d -> acyclic csl ->
+     dfs_order_ok d (weights (length rs) fixed) csl) ->
+  (forall rsl csl d s1, last_pass mklt xB yB third rsl csl d ->
+     StaticModel.static_satisfy (StaticModel.static_init (mkvars d (weights (length rs) fixed)) (mkcons csl)) = VpscModel.Ok s1 ->
+     (forall c, (c < length csl)%nat -> 0 <= VpscModel.slack_val (StaticModel.base s1) c) ->
+     exists s2, StaticModel.static_refine s1 = VpscModel.Ok s2) ->
+  no_overlap xB yB (ro_rects r).
+Proof. exact (fun S T R X Y => pipeline_no_overlap_static_refine_partial mklt S T R xB yB X Y rs fixed third r). Qed.
+Print Assumptions C09_removeoverlaps_no_overlap_static_refine_partial.
+
+(* ---- premise (i) discharged (Vpsc/StaticDfs.v): the generated constraint sets are ranked by CmpNodePos, and on ranked
+   graphs Blocks::totalOrder is a repetition-free topological order.  Solver::satisfy on the last pass: returns, every
+   constraint satisfied exactly - UNCONDITIONAL *)
+Theorem C09_last_pass_satisfy_returns mklt xB yB third rsl csl d w :
+  (forall pos, strict (mklt pos)) ->
+  (forall pos a b, mklt pos a b = true -> (a < length pos)%nat /\ (b < length pos)%nat) ->
+  last_pass mklt xB yB third rsl csl d -> length w = length d -> Forall (fun x => 0 < x) w ->
+  exists s1, StaticModel.static_satisfy (StaticModel.static_init (mkvars d w) (mkcons csl)) = VpscModel.Ok s1 /\
+             forall c, (c < length csl)%nat -> 0 <= VpscModel.slack_val (StaticModel.base s1) c.
+Proof. exact (fun S R => last_pass_satisfy_returns mklt S R xB yB third rsl csl d w). Qed.
+Print Assumptions C09_last_pass_satisfy_returns.
+
+(* removeoverlaps with the static solver model leaves no positive-area overlap; the ONLY remaining premise (hence
+   still _partial): Solver::refine returns from the state Solver::satisfy produced on the last pass, a state in which
+   every constraint already holds exactly.  (refine = split / mergeLeft / mergeRight rounds + closing scan; modelled in
+   Vpsc/StaticModel.v and compared with the compiled code on every run, but no no-throw theorem is proved for it.) *)
+Theorem C09_removeoverlaps_no_overlap_static_refine_only_partial mklt xB yB rs fixed third r :
+  (forall pos, strict (mklt pos)) -> (forall pos, total_on (mklt pos) (length pos)) ->
+  (forall pos a b, mklt pos a b = true -> (a < length pos)%nat /\ (b < length pos)%nat) ->
+  0 <= xB -> 0 <= yB ->
+  good_rects rs -> (Z.of_nat (length rs) <= 10000000)%Z ->
+  removeoverlaps mklt static_solve_fn xB yB rs fixed third = Some r ->
+  (forall rsl csl d s1, last_pass mklt xB yB third rsl csl d ->
+     StaticModel.static_satisfy (StaticModel.static_init (mkvars d (weights (length rs) fixed)) (mkcons csl)) = VpscModel.Ok s1 ->
+     (forall c, (c < length csl)%nat -> 0 <= VpscModel.slack_val (StaticModel.base s1) c) ->
+     exists s2, StaticModel.static_refine s1 = VpscModel.Ok s2) ->
+  no_overlap xB yB (ro_rects r).
+Proof. exact (fun S T R X Y => pipeline_no_overlap_static_refine_only_partial mklt S T R xB yB X Y rs fixed third r). Qed.
+Print Assumptions C09_removeoverlaps_no_overlap_static_refine_only_partial.
